@@ -5,3 +5,4 @@ import Driver.Frame
 import Driver.Cmd
 import Driver.Song
 import Driver.Filter
+import Driver.Commands
